@@ -644,10 +644,40 @@ func corpusCycles() []struct {
 		},
 		Actions: []string{"allocate", "preempt"},
 	}
+	// two pods that exclude each other per host, placed in the same cycle on a cluster where packing prefers one node
+	x1, x2 := cpod("x1-0", 1), cpod("x2-0", 1)
+	x1.Labels, x2.Labels = map[string]string{"app": "x"}, map[string]string{"app": "x"}
+	x1.Anti, x2.Anti = antiAppX(), antiAppX()
+	sameCycle := Cluster{
+		Nodes:  []Node{cnode("n1", 4, map[string]string{"host": "n1"}), cnode("n2", 4, map[string]string{"host": "n2"})},
+		Queues: []cycle.Queue{{Name: "q1", Deserved: 4, Limit: 0, OverQuota: 1, Priority: 100}},
+		Jobs: []Job{{Name: "x1", Queue: "q1", Priority: 100, MinMember: 1, AgeMinutes: 20, Pods: []Pod{x1}},
+			{Name: "x2", Queue: "q1", Priority: 100, MinMember: 1, AgeMinutes: 10, Pods: []Pod{x2}}},
+		Actions: []string{"allocate"},
+	}
+	// a parent set that requires one zone; its two pod sets can only run in different zones: nothing may be placed
+	pa, pb := cpod("s-0", 1), cpod("s-1", 1)
+	pa.SubGroup, pb.SubGroup = "a", "b"
+	pa.NodeSel, pb.NodeSel = map[string]string{"host": "n1"}, map[string]string{"host": "n3"}
+	nested := Cluster{
+		Nodes: []Node{cnode("n1", 1, map[string]string{"host": "n1", "zone": "a", "rack": "r1"}), cnode("n2", 1, map[string]string{"host": "n2", "zone": "a", "rack": "r2"}),
+			cnode("n3", 1, map[string]string{"host": "n3", "zone": "b", "rack": "r3"})},
+		Topos:  []Topo{{Name: "T", Levels: []string{"zone", "rack"}}},
+		Queues: q2,
+		Jobs: []Job{{Name: "s", Queue: "q1", Priority: 100, MinMember: 2, AgeMinutes: 20,
+			SubGroups: []SubGroup{{Name: "p", Min: 1, TC: &TC{Topo: "T", Req: "zone"}}, {Name: "a", Parent: "p", Min: 1, TC: &TC{Topo: "T", Req: "rack"}}, {Name: "b", Parent: "p", Min: 1}},
+			Pods:      []Pod{pa, pb}}},
+		Actions: []string{"allocate"},
+	}
+	// the same with satisfiable selectors: both pods must end up in zone a
+	nestedOK := nested
+	qa, qb := pa, pb
+	qb.NodeSel = map[string]string{"zone": "a"}
+	nestedOK.Jobs = []Job{{Name: "s", Queue: "q1", Priority: 100, MinMember: 2, AgeMinutes: 20, SubGroups: nested.Jobs[0].SubGroups, Pods: []Pod{qa, qb}}}
 	return []struct {
 		name string
 		c    Cluster
-	}{{"sticky-skip", sticky}, {"active-pods-not-pinning", elastic}, {"dotted-labels-gang", dotted}, {"two-racks", racks}, {"missing-topology", missing}, {"taint-preempt", tainted}}
+	}{{"sticky-skip", sticky}, {"active-pods-not-pinning", elastic}, {"same-cycle-anti-affinity", sameCycle}, {"nested-parent-zone", nested}, {"nested-parent-zone-ok", nestedOK}, {"dotted-labels-gang", dotted}, {"two-racks", racks}, {"missing-topology", missing}, {"taint-preempt", tainted}}
 }
 
 // ---- driver ---------------------------------------------------------------------------
@@ -716,7 +746,14 @@ func Run(dir string, seed uint64, n int, tier string) error {
 			if dotted {
 				origin = "gen-dotted"
 			}
-			e, err := EvalCycle(genCycle(r, dotted), origin)
+			var cl Cluster
+			if !dotted && i%8 == 7 {
+				origin = "gen-contended"
+				cl = genContended(r)
+			} else {
+				cl = genCycle(r, dotted)
+			}
+			e, err := EvalCycle(cl, origin)
 			if err != nil {
 				return err
 			}
@@ -728,7 +765,7 @@ func Run(dir string, seed uint64, n int, tier string) error {
 		"taints of all effects, tolerations, unschedulable / not-ready / pressure conditions, node-pool label, 0-5 pods already on the nodes with (anti-)affinity terms and two namespaces, a third of them two-phase " +
 		"(PrePredicate evaluated before and after pods appear); T2b (1/4) SubsetNodesFn called as allocate does for the root set, nested sets and pod sets of a job on 3-6 node clusters with a 1-3 level topology " +
 		"(unbalanced, nodes lacking labels, required / preferred / bogus levels, missing topology, active pods pinning the domain; 1/10 of these clusters with dotted label values); " +
-		"T3 (1/4) whole cycles (allocate + random subset of consolidation, reclaim, preempt) on 2-5 node clusters with GPUs, taints, conditions, pool label, 2-7 jobs with selectors / affinities / tolerations / topology constraints / nested sub-groups. " +
+		"T3 (1/4) whole cycles (allocate + random subset of consolidation, reclaim, preempt; half of them contended: every GPU held by a low-priority running pod so that placements are nominations after evictions) on 2-5 node clusters with GPUs, taints, conditions, pool label, 2-7 jobs with selectors / affinities / tolerations / topology constraints / nested sub-groups. " +
 		"Non-trivial = T2a: the pod carries a selector / affinity term or pods are already placed; T2b: a constrained call with tasks; T3: the cycle issued at least one call. Distinct by full label."
 	return out.Flush()
 }
